@@ -587,8 +587,11 @@ def _append_nans(result, axis, first=False):
 
     axis: `int`
     """
-    nan_slice = np.empty_like(result.take([0], axis=axis)) # make a slice ...
-    nan_slice.fill(np.nan) # ...filled with NaNs
+    shape = list(result.shape)
+    shape[axis] = 1
+    # a slice filled with NaNs (float: integer arrays cannot hold NaN; no take: the result may be empty)
+    nan_slice = np.empty(shape, dtype=result.dtype if result.dtype.kind == 'f' else float)
+    nan_slice.fill(np.nan)
 
     # Insert as first element
     if first:
